@@ -347,6 +347,19 @@ class OrderedMultiDict(dict, MutableMappingSequence):
     def copy(self):
         return type(self)(self)
 
+    def __reduce__(self):
+        # The default reduction of a dict subclass restores the instance
+        # dictionary (sharing or bypassing the private item list) and then
+        # re-assigns every pair through __setitem__, which corrupts both
+        # representations for copy.copy(), copy.deepcopy() and pickle.
+        # Rebuild from the list of pairs, like copy() does, and carry any
+        # other instance attributes (e.g. a module's .errors) as state.
+        state = {
+            k: v for k, v in self.__dict__.items()
+            if k != "_OrderedMultiDict__items"
+        }
+        return (type(self), (list(self.__items),), state or None)
+
     def insert(self, index: int, *args) -> None:
         """Inserts at the index given by *index*.
 
